@@ -418,6 +418,20 @@ def r4_tables(corpus: Corpus, rep: Report, tier: str):
 # R5 positions
 
 
+def _seq_element(v: ast.expr, idx: int, width: int | None):
+    """expression of element ``idx`` of a literal tuple/list, or of a comprehension over a literal tuple/list"""
+    if isinstance(v, ast.Call) and isinstance(v.func, ast.Name) and v.func.id in ("list", "tuple") and len(v.args) == 1 and not v.keywords:
+        v = v.args[0]
+    if isinstance(v, (ast.Tuple, ast.List)):
+        return v.elts[idx] if idx < len(v.elts) and width in (None, len(v.elts)) else None
+    if isinstance(v, (ast.GeneratorExp, ast.ListComp)) and len(v.generators) == 1 and not v.generators[0].ifs and isinstance(v.generators[0].target, ast.Name) and isinstance(v.generators[0].iter, (ast.Tuple, ast.List)):
+        src_ = v.generators[0].iter.elts
+        if idx < len(src_) and width in (None, len(src_)):
+            elt = _Subst({v.generators[0].target.id: unparse(src_[idx])}).visit(ast.parse(unparse(v.elt), mode="eval").body)
+            return ast.fix_missing_locations(elt)
+    return None
+
+
 def _position_kind(e: ast.expr | None, fi: FunctionInfo, corpus: Corpus, depth: int = 0) -> tuple[str, str]:
     """('pos'|'none'|'bad'|'unknown', detail) - is the expression a Position taken from the stream?"""
     g = get_callgraph(corpus)
@@ -489,12 +503,29 @@ def _position_kind(e: ast.expr | None, fi: FunctionInfo, corpus: Corpus, depth: 
             return "pos", f"parameter {e.id} (all call sites pass a stream position)"
         defs = [n for n in fi.local_nodes() if isinstance(n, (ast.Assign, ast.AnnAssign)) and any(isinstance(t, ast.Name) and t.id == e.id for t in (n.targets if isinstance(n, ast.Assign) else [n.target]))]
         if not defs:
+            # element of a tuple unpacking: `a, b = (x, y)` or `a, b = (f(v) for v in (x, y))`
+            for n in fi.local_nodes():
+                if not (isinstance(n, ast.Assign) and len(n.targets) == 1 and isinstance(n.targets[0], (ast.Tuple, ast.List))):
+                    continue
+                idx = next((i for i, t in enumerate(n.targets[0].elts) if isinstance(t, ast.Name) and t.id == e.id), None)
+                if idx is None:
+                    continue
+                el = _seq_element(n.value, idx, len(n.targets[0].elts))
+                if el is not None:
+                    return _position_kind(el, fi, corpus, depth + 1)
+                return "unknown", f"name {e.id} comes out of an unpacking the rule does not understand"
             return "unknown", f"name {e.id} has no simple definition"
         for d_ in defs:
             r = _position_kind(d_.value, fi, corpus, depth + 1)
             if r[0] != "pos":
                 return r
         return "pos", f"local {e.id}"
+    if isinstance(e, ast.Subscript) and isinstance(e.value, ast.Name) and isinstance(e.slice, ast.Constant) and isinstance(e.slice.value, int) and e.slice.value >= 0:
+        defs = [n for n in fi.local_nodes() if isinstance(n, ast.Assign) and len(n.targets) == 1 and isinstance(n.targets[0], ast.Name) and n.targets[0].id == e.value.id]
+        if len(defs) == 1:
+            el = _seq_element(defs[0].value, e.slice.value, None)
+            if el is not None:
+                return _position_kind(el, fi, corpus, depth + 1)
     return "bad" if isinstance(e, (ast.BinOp, ast.Tuple, ast.JoinedStr)) else "unknown", f"expression {short(e, 40)}"
 
 
@@ -521,16 +552,40 @@ def _replace_helper(call: ast.Call, fi: FunctionInfo, corpus: Corpus):
     return None
 
 
+def _literal_iteration(node: ast.AST, root: ast.AST):
+    """(variable, [element texts]) of the innermost comprehension / for statement over a literal tuple or list
+    that ``node`` sits in, None if there is none"""
+    p = parent(node)
+    child = node
+    while p is not None and child is not root:
+        gens = p.generators if isinstance(p, (ast.GeneratorExp, ast.ListComp, ast.SetComp)) else []
+        if isinstance(p, ast.For) and any(child is b for b in p.body):
+            gens = [p]
+        for g_ in gens:
+            if isinstance(g_.target, ast.Name) and isinstance(g_.iter, (ast.Tuple, ast.List)) and not getattr(g_, "ifs", None):
+                return g_.target.id, [unparse(e) for e in g_.iter.elts]
+        child, p = p, parent(p)
+    return None
+
+
 def _shift_sites(clone: FunctionInfo, corpus: Corpus) -> list:
-    """[(text of the shifted mark, node for the site, {field: text of the new value})] for every
-    dataclasses.replace(mark, ...) clone() performs, directly or through a helper"""
+    """[(text of the shifted mark, node for the site, {field: text of the new value}, alias | None)] for every
+    dataclasses.replace(mark, ...) clone() performs - directly, through a helper, or element-wise in a comprehension /
+    loop over a literal tuple of marks (alias = the iteration variable)"""
     m = clone.module
     out = []
     for c in clone.local_nodes():
         if not isinstance(c, ast.Call):
             continue
         if m.resolve(dotted(c.func) or "") == "dataclasses.replace" and c.args:
-            out.append((unparse(c.args[0]), c, {kw.arg: unparse(kw.value) for kw in c.keywords if kw.arg}))
+            kws = {kw.arg: kw.value for kw in c.keywords if kw.arg}
+            it = _literal_iteration(c, clone.node) if isinstance(c.args[0], ast.Name) else None
+            if it is not None and it[0] == c.args[0].id:
+                for el in it[1]:
+                    sub = {k_: unparse(_Subst({it[0]: el}).visit(ast.parse(unparse(v), mode="eval").body)) for k_, v in kws.items()}
+                    out.append((el, c, sub, it[0]))
+            else:
+                out.append((unparse(c.args[0]), c, {k_: unparse(v) for k_, v in kws.items()}, None))
             continue
         h = _replace_helper(c, clone, corpus)
         if h is not None and not any(isinstance(a, ast.Starred) for a in c.args):
@@ -543,7 +598,7 @@ def _shift_sites(clone: FunctionInfo, corpus: Corpus) -> list:
                 if kw.arg:
                     v = _Subst(mapping).visit(ast.parse(unparse(kw.value), mode="eval").body)
                     kws[kw.arg] = unparse(v)
-            out.append((mapping.get(rcall.args[0].id, "?"), c, kws))
+            out.append((mapping.get(rcall.args[0].id, "?"), c, kws, None))
     return out
 
 
@@ -618,8 +673,8 @@ def r5_positions(corpus: Corpus, rep: Report, tier: str):
     line_p, col_p = cp
     sites = _shift_sites(clone, corpus)
     marks = {}
-    for mark_text, node, kws in sites:
-        marks.setdefault(mark_text, (node, kws))
+    for mark_text, node, kws, alias in sites:
+        marks.setdefault(mark_text, (node, kws, alias))
     ret_args = [unparse(a) for r in clone.local_nodes() if isinstance(r, ast.Return) and isinstance(r.value, ast.Call) for a in r.value.args]
     for mark in ("self.problem_mark", "self.context_mark"):
         k = f"{clone.fq}|{mark} shifted by ({line_p}, {col_p})"
@@ -629,7 +684,7 @@ def r5_positions(corpus: Corpus, rep: Report, tier: str):
             else:
                 rep.error("C07.R5", f"{clone.site()} clone(): no dataclasses.replace({mark}, line=..., column=...) found, directly or in a helper it calls - shape not understood")
             continue
-        c, kws = marks[mark]
+        c, kws, _alias = marks[mark]
         bad = []
         for fld, p in (("line", line_p), ("column", col_p)):
             v = kws.get(fld)
@@ -647,13 +702,17 @@ def r5_positions(corpus: Corpus, rep: Report, tier: str):
         k = f"{clone.fq}|context_mark None-guard"
         p = parent(c)
         guarded = False
+        names_ = ["self.context_mark"] + ([marks["self.context_mark"][2]] if marks["self.context_mark"][2] else [])
         while p is not None and p is not clone.node:
             if isinstance(p, (ast.IfExp, ast.If)):
                 t = unparse(p.test)
-                if t == "self.context_mark is None" and (c in ast.walk(p.orelse) if isinstance(p, ast.IfExp) else any(c in ast.walk(s) for s in p.orelse)):
-                    guarded = True
-                if t in ("self.context_mark is not None", "self.context_mark") and (c in ast.walk(p.body) if isinstance(p, ast.IfExp) else any(c in ast.walk(s) for s in p.body)):
-                    guarded = True
+                in_else = c in ast.walk(p.orelse) if isinstance(p, ast.IfExp) else any(c in ast.walk(s) for s in p.orelse)
+                in_body = c in ast.walk(p.body) if isinstance(p, ast.IfExp) else any(c in ast.walk(s) for s in p.body)
+                for nm in names_:
+                    if t == f"{nm} is None" and in_else:
+                        guarded = True
+                    if t in (f"{nm} is not None", nm) and in_body:
+                        guarded = True
             p = parent(p)
         if guarded:
             rep.ok("C07.R5", k, m.site(c))
@@ -964,6 +1023,18 @@ class Side:
                     continue  # emitting nothing
                 out.append(f"emit:{f.attr}({self.norm(a0)})")
         return out
+
+    def unconditional(self, token: str) -> int:
+        """how many sites yielding ``token`` are executed on every call (under no branch, loop or handler)"""
+        cnt = 0
+        for n in self.fi.local_nodes():
+            if isinstance(n, ast.Call) and token in self.effects([n]):
+                p = parent(n)
+                while p is not None and p is not self.fi.node and not isinstance(p, (ast.If, ast.While, ast.For, ast.Try, ast.With, ast.IfExp, ast.BoolOp, ast.ListComp, ast.GeneratorExp, ast.Lambda)):
+                    p = parent(p)
+                if p is None or p is self.fi.node:
+                    cnt += 1
+        return cnt
 
     def settings(self, nodes) -> list[str]:
         """flag stores `name = True/False/None` among ``nodes``: what a branch decides besides what it consumes/emits"""
@@ -1501,8 +1572,10 @@ def r4_fingerprints(corpus: Corpus, rep: Report, tier: str) -> None:
         yf = sib.func(y)
         of = m.func(o)
         rep.saw_function(of.fq)
-        a = Side(prepared(of, True), False).fingerprints()
-        b = Side(prepared(yf, False), True, sib.cls(y.split(".")[0])).fingerprints()
+        side_o = Side(prepared(of, True), False)
+        side_y = Side(prepared(yf, False), True, sib.cls(y.split(".")[0]))
+        a = side_o.fingerprints()
+        b = side_y.fingerprints()
         # does the port lack anything PyYAML has (beyond the tabled deviations)?  If not, unexplained extras are pure
         # additions (a redundant guard, an early return): undecidable here -> ANALYSIS-ERROR, not VIOLATION.
         lacks = False
@@ -1520,6 +1593,14 @@ def r4_fingerprints(corpus: Corpus, rep: Report, tier: str) -> None:
                     cnt, reason = allowed.get(e, (0, ""))
                     if n <= cnt:
                         rep.assumed("C07.R4", f"{of.fq}|{kind}|{'only here' if side == 'opt' else 'only in PyYAML'}: {_fmt(e)}", of.site(), f"deliberate deviation: {reason}")
+                    elif side == "opt" and not lacks and kind in ("effects", "emits") and isinstance(e, str) and e.startswith(("do:", "emit:")) and side_o.unconditional(e) > side_y.unconditional(e):
+                        rep.violation(
+                            "C07.R4",
+                            f"{of.fq}|{kind}|unconditional here: {_fmt(e)}",
+                            _site_of(of, e),
+                            f"{o} performs {_fmt(e)} on every call ({side_o.unconditional(e)} unconditional site(s)); PyYAML's {y} does so only under a condition "
+                            f"({side_y.unconditional(e)} unconditional): whenever that condition fails the port consumes/emits something the reference does not",
+                        )
                     elif side == "opt" and not lacks:
                         rep.error(
                             "C07.R4",
@@ -2252,8 +2333,33 @@ class E9:
                     return g_
         return None
 
+    def validated_parse(self, fi, n_name: str, st):
+        """`try: int(prefix(N), base) except ValueError: raise/return` before ``st``: int() rejects a string containing NUL,
+        and a slice cut short by the end of the buffer contains the sentinel, so a successful parse means N non-END characters"""
+        cfg = get_cfg(fi)
+        for tr in cfg.nodes:
+            if not isinstance(tr, ast.Try) or tr.finalbody:
+                continue
+            hs = [h for h in tr.handlers if h.type is None or any(nm in unparse(h.type) for nm in ("ValueError", "Exception"))]
+            if not hs or not all(h.body and isinstance(h.body[-1], (ast.Raise, ast.Return)) for h in tr.handlers):
+                continue
+            for s_ in tr.body:
+                for c in self.calls(s_):
+                    if not (isinstance(c.func, ast.Name) and c.func.id == "int" and c.args):
+                        continue
+                    src_ = self.prefix_len_name(c.args[0], fi, s_)
+                    if src_ is None or src_[0] != n_name:
+                        continue
+                    origin = src_[1] if src_[1] is not None else s_
+                    if cfg.dominates(s_, st) and s_ is not st and not any(st in self.reach(cfg, ("H", h), None) for h in tr.handlers) and not self.intervening(cfg, origin, st, self.killers(fi, {n_name})):
+                        return tr
+        return None
+
     def validated(self, fi, n_name: str, st, within=None):
-        return self.hex_loop(fi, n_name, st, within) or self.validated_slice(fi, n_name, st, within)
+        r = self.hex_loop(fi, n_name, st, within) or self.validated_slice(fi, n_name, st, within)
+        if r is None and within is None:
+            r = self.validated_parse(fi, n_name, st)
+        return r
 
     def validating_loop(self, fi, L: ast.For, within=None) -> bool:
         k = L.target.id
@@ -2894,4 +3000,49 @@ def mutants(corpus: Corpus):
         out.append(Mutant("c07-digit-helper-guard-widened", "C07.R1", m.rel, "".join(lines), expect="int(digit)"))
     else:
         out.append(("c07-digit-helper-guard-widened", "digit blocks not found"))
+    # --- round 4: code motion of an emission, de-duplicated clone(), int() as the validator ---
+    f_ = m.func("_scan_block_scalar")
+    loop = find_node(f_, lambda n: isinstance(n, ast.While) and "column" in unparse(n.test))
+    if loop is not None and unparse(loop.body[0]) == "chunks.extend(breaks)":
+        inner = next((x for x in loop.body if isinstance(x, ast.If) and "column" in unparse(x.test) and x.orelse), None)
+        if inner is not None:
+            ind_l = " " * loop.col_offset
+            ind_i = " " * inner.body[0].col_offset
+            lines = m.src.splitlines(keepends=True)
+            edits = [
+                (inner.body[-1].end_lineno + 1, inner.body[-1].end_lineno, f"{ind_i}chunks.extend(breaks)\n"),
+                (loop.body[0].lineno, loop.body[0].end_lineno, ""),
+                (loop.lineno, loop.lineno - 1, f"{ind_l}chunks.extend(breaks)\n"),
+            ]
+            for a_, b_, text in sorted(edits, key=lambda e: -e[0]):
+                lines[a_ - 1 : b_] = [text] if text else []
+            out.append(Mutant("c07-leading-breaks-emitted-before-loop", "C07.R4", m.rel, "".join(lines), expect="unconditional here"))
+    else:
+        out.append(("c07-leading-breaks-emitted-before-loop", "block scalar loop not found"))
+    add("c07-trailing-spaces-emitted", "C07.R4", "_scan_plain_scalar", lambda n: isinstance(n, ast.Return), lambda n: "chunks.extend(spaces)\n    " + ast.get_source_segment(m.src, n), "unconditional here")
+    add(
+        "c07-clone-generator-without-none-guard",
+        "C07.R5",
+        "TokenizeError.clone",
+        lambda n: isinstance(n, ast.Return),
+        "problem_mark, context_mark = (replace(mark, line=mark.line + line_offset, column=mark.column + column_offset) for mark in (self.problem_mark, self.context_mark))\n"
+        "        return TokenizeError(self.problem, problem_mark, self.context, context_mark)",
+        "None-guard",
+    )
+    f_ = m.func(nl)
+    loop = find_node(f_, lambda n: isinstance(n, ast.For) and unparse(n.iter) == "range(length)")
+    if loop is not None:
+        blk = next(b for b in _blocks(f_.node) if any(x is loop for x in b))
+        nxt = blk[[i for i, x in enumerate(blk) if x is loop][0] + 1]
+        if isinstance(nxt, ast.Assign) and unparse(nxt).startswith("code = int("):
+            ind = " " * loop.col_offset
+            text = (
+                f"try:\n{ind}    {unparse(nxt)}\n{ind}except ValueError:\n"
+                f"{ind}    raise TokenizeError('expected hexadecimal escape', stream.get_position(), 'while scanning a double-quoted scalar', start_mark) from None\n"
+            )
+            lines = m.src.splitlines(keepends=True)
+            lines[loop.lineno - 1 : nxt.end_lineno] = [ind + text]
+            out.append(Mutant("c07-hex-check-replaced-by-int-parse", "C07.R1", m.rel, "".join(lines), expect="chr(code)"))
+    else:
+        out.append(("c07-hex-check-replaced-by-int-parse", "validation loop not found"))
     return out
